@@ -736,7 +736,7 @@ def output(func, *output, **kw):
         raise ValueError('When declaring multiple outputs each value '
                          'must be unique.')
 
-    _dinfo = getattr(func, '_dinfo', {})
+    _dinfo = dict(getattr(func, '_dinfo', {}))
     _dinfo.update({'outputs': processed})
 
     @wraps(func)
